@@ -205,6 +205,26 @@ Print Assumptions c09_symlink_unhashed_parts.
 
 (* ---- the re-run decision (BuildEngine scanRule + ExternalCommand::isResultValid) ---- *)
 
+(* index alignment of ExternalCommand::isResultValid: with one stored info per declared output, the outputs are valid
+   iff every NON-VIRTUAL output i matches stored info i (same index, also after virtual outputs) *)
+Theorem c09_outputs_valid_aligned : forall outs infos, length infos = length outs ->
+  (outputs_valid outs infos = Valid <->
+   forall i o s, nth_error outs i = Some o -> nth_error infos i = Some s -> on_virtual o = false -> output_matches o s = true).
+Proof. exact outputs_valid_aligned. Qed.
+Print Assumptions c09_outputs_valid_aligned.
+
+Theorem c09_outputs_invalid_aligned : forall outs infos, length infos = length outs ->
+  (outputs_valid outs infos = Invalid <-> output_differs outs infos).
+Proof. exact outputs_valid_invalid_aligned. Qed.
+Print Assumptions c09_outputs_invalid_aligned.
+
+(* whatever is stored at a virtual position, at any place of the list, is ignored *)
+Theorem c09_outputs_valid_virtual_ignored : forall o1 s1 v o2 x y s2,
+  length s1 = length o1 -> on_virtual v = true ->
+  outputs_valid (o1 ++ v :: o2) (s1 ++ x :: s2) = outputs_valid (o1 ++ v :: o2) (s1 ++ y :: s2).
+Proof. exact outputs_valid_virtual_ignored. Qed.
+Print Assumptions c09_outputs_valid_virtual_ignored.
+
 (* a rule built before by a task that was not cancelled, whose recorded dependencies report no change: the command
    executes iff the signature changed, or it is always-out-of-date, or the stored value is not a successful command
    result, or some non-virtual output no longer matches its stored info; and the check never reads past the stored
@@ -302,3 +322,16 @@ Example c09_symlink_instance :
   symlink_wf ex_sdef /\ sdef_sig_tokens ex_sdef = Some ([60;97;62], [TStr [116]; TStr [105]]) /\
   sdef_sig_tokens (mkSdef [76] [] [] [116] [108] false) = None.
 Proof. exact sdef_instance. Qed.
+
+(* output lists mixing virtual and file nodes: file / virtual / file and virtual / file / file are valid when every file
+   output matches the info stored at ITS index; a tampered last output is found; all-virtual lists are valid; infos
+   shifted by one position (what a counter that skips virtual outputs would compare) are NOT accepted *)
+Example c09_mixed_layout_instance :
+  let a := mkOnode false false (ex_info 10) in let v := mkOnode true false (ex_info 0) in
+  let b := mkOnode false false (ex_info 20) in
+  outputs_valid [a; v; b] [ex_info 10; ex_info 99; ex_info 20] = Valid /\
+  outputs_valid [v; a; b] [ex_info 99; ex_info 10; ex_info 20] = Valid /\
+  outputs_valid [a; v; b] [ex_info 10; ex_info 99; ex_info 21] = Invalid /\
+  outputs_valid [v; v] [ex_info 1; ex_info 2] = Valid /\
+  outputs_valid [v; a; b] [ex_info 10; ex_info 20; ex_info 99] = Invalid.
+Proof. exact mixed_layout_instance. Qed.
